@@ -51,9 +51,7 @@ Qed.
 Theorem C20_ok_model m :
   wf m = true -> C20_ok m (N.of_nat (stage_walks m)) (N.of_nat (type_visits m)) = true.
 Proof.
-  unfold wf. intros Hwf.
-  apply andb_true_iff in Hwf as [Hwf _]. apply andb_true_iff in Hwf as [Hwf Ht].
-  apply andb_true_iff in Hwf as [Hg Hc].
+  intros Hwf. destruct (wf_proj m Hwf) as (Hg & Hc & Ht & _ & _).
   unfold C20_ok, walks_bound, visits_bound. apply andb_true_iff. split; apply N.leb_le.
   - pose proof (stage_walks_bound m Hc). lia.
   - pose proof (type_visits_bound m Ht Hg). lia.
